@@ -218,8 +218,11 @@ def gen_call(rng, mdl, weights=None, profile=None):
       if rng.random() < 0.55:
         if st and st['trials'] and rng.random() < 0.85:
           tid = rng.choice(sorted(st['trials']))
-        else:
+        elif rng.random() < 0.7:
           tid = rng.choice([1, 9, 42])
+        else:
+          # not a trial id at all (trial ids are positive integers)
+          tid = rng.choice(['0', '-1', 'x', '1.0', '1x'])
       val = rng.choice(['v1', 'v2', '', {'any': 'blob1'}, {'any': ''}])
       delta.append([tid, rng.choice(NAMESPACES), rng.choice(KEYS), val])
     return {'op': op, 'study': sname, 'delta': delta}
